@@ -20,6 +20,7 @@ func init() {
 		Explanation: "Structural rules for the query log. Decided: (D1) codec agreement: every JSON key that encoding/json emits for querylog.logEntry, filtering.Result, filtering.ResultRule and filtering.DNSRewriteResult has a case in the hand-written streaming decoder at the matching nesting level, and each scalar handler asserts the JSON token kind its Go field is encoded with — so no recorded field is silently lost or mis-typed when an entry is read back from the file; " +
 			"(D2) 'no parameter value makes the request crash': the request integers limit/offset are stored into searchParams only behind sign and overflow guards, no other writer stores possibly negative values, and every slice expression in search/searchMemory/searchFiles/readEntries with a non-constant bound is dominated by a length guard on the same slice; " +
 			"(D3) one funnel: the ring buffer is pushed only by Add, the file is opened for writing only by flushToFile in append mode, and the buffer is encoded and cleared in one bufferLock critical section. " +
+			"(D5, cont.) while positioning the file reader for a cursor one record is read and discarded only when the seek landed on the cursor's own record (a cursor newer than all file records, i.e. an entry still in memory, skips nothing); (D6) the address mutator is applied only to copies: no value passed to an aghnet.IPMutFunc in the query log aliases the IP field of an entry, so recorded entries keep the client they were recorded with. " +
 			"Not decided: exactly-once / newest-first over memory+file+rotated file, cursor and offset partitioning, search-term semantics (history- and value-level).",
 		RuleText: "Key sets are computed from go/types struct tags following encoding/json naming, and from the typed AST of the decoder (map literal keys, switch cases, == comparisons).",
 		Assumptions: []string{
